@@ -253,6 +253,16 @@ impl Ctx {
         }
     }
     pub fn want_event(&self) -> bool { self.events.len() < self.event_budget }
+
+    /// number of violations recorded so far (to derive a per-case verdict for the event log)
+    pub fn total_violations(&self) -> u64 { self.violation_counts.values().sum() }
+
+    /// log one judged call for the offline second opinion: inputs, parameters, output, in-process verdict
+    pub fn log(&mut self, op: &str, ins: &[String], params: serde_json::Value, out: String, held: bool) {
+        if self.events.len() < self.event_budget {
+            self.events.push(serde_json::json!({"p": self.prop, "op": op, "in": ins, "ctx": params, "out": out, "held": held}).to_string());
+        }
+    }
 }
 
 /// Result of one unit, in a form that can be merged and serialised
